@@ -41,6 +41,18 @@ class Ctx:
         self.floors[rule] = max(self.floors.get(rule, 0), floor)
 
     def _add(self, rule, instance, verdict, where, construct, detail):
+        if verdict == VIOLATION and where and where.count(":") >= 1:
+            # a known private helper of this function was folded back into it: the rule was written against the
+            # two functions, what it reads in the merged one is not a positive identification of a bad construct
+            parts = where.split(":")
+            try:
+                gone = self.program.vanished_callees().get((parts[0], parts[1]))
+            except Exception:
+                gone = None
+            if gone:
+                verdict = UNRECOGNISED
+                detail = f"{', '.join(gone)} of the reference is folded into {parts[1]}: `{construct}` is not judged; " + (detail or "")
+                construct = ""
         self.obligations.append(
             {
                 "rule": rule,
